@@ -78,7 +78,17 @@ var vfC41FatalCalls atomic.Int64
 
 type vfC41FatalUnwind struct{}
 
-func vfC41Dial(local *DbmsLocal, scfg *tls.Config) (*vfC41Wire, error) {
+// vfC41Dial connects; the hello exchange has a 500 ms deadline which a loaded machine can miss: retry
+func vfC41Dial(local *DbmsLocal, scfg *tls.Config) (w *vfC41Wire, err error) {
+	for try := 0; try < 40; try++ {
+		if w, err = vfC41Dial1(local, scfg); err == nil {
+			return w, nil
+		}
+	}
+	return nil, err
+}
+
+func vfC41Dial1(local *DbmsLocal, scfg *tls.Config) (*vfC41Wire, error) {
 	p1, p2 := net.Pipe()
 	go func() {
 		defer func() {
